@@ -22,9 +22,9 @@ LEVEL_NOTE = ('partial: "input frame untouched" and "requested dtype" are observ
               'frames; dtype compared) and by the regenerated effect table of C10, not proved about NumPy; a non-flat Spectrum QE agrees with a '
               'vector only through the sampled correspondence (the theorem covers flat spectra and unit invariance); float rounding is not '
               'modelled (test data is dyadic so float64 is exact). The Bayer tile/repeat bookkeeping, the adc gain dispatch, power-cube loop, einsum '
-              'subscripts and step order are REGENERATED from detector.py (Gen/DetectorIdx.lean): mosaic_*, adc_matches_source, power_cube_exponent depend on them.')
+              'subscripts and step order are REGENERATED from detector.py (Gen/DetectorIdx.lean): mosaic_*, adc_matches_source, power_cube_exponent, gain_dispatch_matches_model depend on them. NaN/inf frames are not generated (outside the model).')
 TECHNIQUE = 'Lean 4 proof (omega/Int.ediv-emod, ordered-field algebra, Int.floor) over a hand model with exact differential correspondence'
-GEN = ['Effects', 'Units', 'DetectorIdx']
+GEN = ['DetectorIdx', 'Effects', 'Extent', 'FieldDispatch', 'FieldIdx', 'FieldMerge', 'Units']     # every Gen module the model, lemmas, theorems and driver ops import (transitively)
 OPS = ['C16']
 RULE = ('extremes stream (12 per quick run): wavelengths a hair inside/outside the QE band in m/um/nm/angstrom, gain values 2^-k below an '
         'integer; Bayer sizes with only the rows, only the columns, or a single row/column off the multiple; cases: collect_charge on cubes (1..4 slices, shapes 1..5, dyadic signed photons, 2-D input), QE as scalar / vector / Spectrum '
